@@ -16,7 +16,6 @@ from running the program (see `analyse`).
 import ast
 import re
 import symtable
-import sys
 import types
 
 STMT_KINDS = 'MFC'
@@ -42,6 +41,13 @@ CORE = {
     'C': ['none', 'before', 'after', 'gbind', 'nlbind'],
     'L': ['none', 'param', 'before'],
     'G': ['none', 'for', 'before'],
+}
+MINI = {
+    'M': ['none', 'before'],
+    'F': ['none', 'before', 'param', 'nlbind'],
+    'C': ['none', 'before'],
+    'L': ['none', 'param'],
+    'G': ['none', 'for'],
 }
 FULL = {
     'M': ['none', 'before', 'after', 'late', 'both'],
